@@ -104,6 +104,63 @@ impl StorageEngine {
 //@@ body
 //@@ end
 
+// SPOP: "random picks come from the current members" — whatever the shuffle does (ASSUMED only to permute), the members handed out are
+// distinct members of the set as it was, min(count, cardinality) of them; exactly they leave; an emptied set ceases to exist as a key
+//@@ unit spop fn src/storage/engine.rs StorageEngine::spop
+//@@   params drop "db: DatabaseIndex" add "shard_guard: &mut DatabaseShard"
+//@@   rewrite R2
+//@@   rewrite RXPR "set.iter().cloned().collect()" "verif_members_vec(set)"
+//@@   rewrite RT "let mut rng = rand::thread_rng();" ""
+//@@   rewrite RT "members.shuffle(&mut rng);" "verif_shuffle(&mut members);"
+//@@   rewrite RT "std::cmp::min(count, members.len())" "verif_min(count, members.len())"
+//@@   rewrite RXPR "members.drain(..n).collect()" "verif_take_front(&mut members, n)"
+//@@   rewrite RFORS 0
+//@@   loop 0
+//@@|     invariant member__n <= result@.len(), set@ =~= old_set.difference(seq_set(result@, member__n as int)), old_set.finite(),
+//@@|     decreases result@.len() - member__n,
+//@@   at "if members.is_empty()"
+//@@|     proof { members@.unique_seq_to_set(); }
+//@@   at "let n = std::cmp::min(count, members.len());"
+//@@|     let ghost all = members@;
+//@@|     let ghost old_set = set@;
+//@@|     proof { all.unique_seq_to_set(); }
+//@@   at "for member in &result"
+//@@|     proof {
+//@@|         assert(result@.subrange(0, 0).to_set() =~= Set::<Vec<u8>>::empty());
+//@@|         assert forall|i: int, j: int| 0 <= i < j < result@.len() implies result@[i] != result@[j] by { assert(all[i] != all[j]); }
+//@@|         assert forall|x: Vec<u8>| result@.to_set().contains(x) implies old_set.contains(x) by {
+//@@|             let i = choose|i: int| 0 <= i < result@.len() && result@[i] == x; assert(all[i] == x); assert(all.to_set().contains(x));
+//@@|         }
+//@@|     }
+//@@   at "set.remove(member);"
+//@@|     proof { lemma_seq_set_step(result@, member__n as int - 1); }
+//@@   at "let is_empty = set.is_empty();"
+//@@|     proof {
+//@@|         assert(result@.subrange(0, result@.len() as int) =~= result@);
+//@@|         vstd::set_lib::lemma_len_subset(set@, old_set);
+//@@|         result@.unique_seq_to_set();
+//@@|         vstd::set_lib::lemma_len_subset(result@.to_set(), old_set);
+//@@|         vstd::set_lib::lemma_len_difference(old_set, result@.to_set());
+//@@|         if result@.len() == 0 { assert(set@ =~= old_set); }
+//@@|     }
+    fn spop(&self, shard_guard: &mut DatabaseShard, key: Key, count: usize) -> (r: Result<Vec<Vec<u8>>>)
+        ensures
+            step_ok(eff(*old(shard_guard), key), sv(*final(shard_guard)), key),
+            coll_ok(eff(*old(shard_guard), key)) ==> coll_ok(sv(*final(shard_guard))),
+            holds_non_set(eff(*old(shard_guard), key), key) ==> r is Err && unchanged(eff(*old(shard_guard), key), sv(*final(shard_guard))),
+            !eff(*old(shard_guard), key).data.contains_key(key) ==> (r matches Ok(v) && v@.len() == 0) && unchanged(eff(*old(shard_guard), key), sv(*final(shard_guard))),
+            // (under the data invariant that no empty set is stored — kept by every operation under contract)
+            coll_ok(eff(*old(shard_guard), key)) ==> (set_at(eff(*old(shard_guard), key), key) matches Some(m) ==> (r matches Ok(v) && ({
+                let left = m.difference(v@.to_set());
+                &&& v@.no_duplicates() && v@.to_set().subset_of(m)
+                &&& v@.len() == (if count <= m.len() { count as int } else { m.len() as int })
+                &&& (left.len() == 0 ==> !sv(*final(shard_guard)).data.contains_key(key) && !sv(*final(shard_guard)).exp.contains_key(key))
+                &&& (left.len() != 0 ==> set_at(sv(*final(shard_guard)), key) == Some(left)
+                        && sv(*final(shard_guard)).data[key].metadata == eff(*old(shard_guard), key).data[key].metadata)
+            }))),
+//@@ body
+//@@ end
+
 //@@ unit scard fn src/storage/engine.rs StorageEngine::scard
 //@@   params drop "db: DatabaseIndex" add "shard_guard: &mut DatabaseShard"
 //@@   rewrite R2
@@ -228,6 +285,21 @@ impl StorageEngine {
 //@@ body
 //@@ end
 }
+/// `set.iter().cloned().collect()` into a Vec (RXPR site): ASSUMED — every member once, in some order
+#[verifier::external_body]
+pub fn verif_members_vec(set: &HashSet<Vec<u8>>) -> (r: Vec<Vec<u8>>) ensures r@.no_duplicates(), r@.to_set() == set@, { unimplemented!() }
+/// `members.shuffle(&mut rng)` with the thread-local generator (RT site, two statements): ASSUMED to permute — the same members, each once
+#[verifier::external_body]
+pub fn verif_shuffle(v: &mut Vec<Vec<u8>>) ensures final(v)@.no_duplicates() == old(v)@.no_duplicates(), final(v)@.to_set() == old(v)@.to_set(), final(v)@.len() == old(v)@.len(), { unimplemented!() }
+/// `std::cmp::min` on usize (RT site)
+#[verifier::external_body]
+pub fn verif_min(a: usize, b: usize) -> (r: usize) ensures r == (if a <= b { a } else { b }), { unimplemented!() }
+/// `members.drain(..n).collect()` (RXPR site): the first n elements, in order
+#[verifier::external_body]
+pub fn verif_take_front(v: &mut Vec<Vec<u8>>, n: usize) -> (r: Vec<Vec<u8>>)
+    requires n <= old(v)@.len(),
+    ensures r@ == old(v)@.subrange(0, n as int), final(v)@ == old(v)@.subrange(n as int, old(v)@.len() as int),
+{ unimplemented!() }
 /// `set.iter().cloned().collect()` into a HashSet (RXPR site): a copy of the set
 #[verifier::external_body]
 pub fn verif_clone_set(set: &HashSet<Vec<u8>>) -> (r: HashSet<Vec<u8>>) ensures r@ == set@, { unimplemented!() }
